@@ -25,6 +25,9 @@ type Profile struct {
 	MaxSteps     int
 	SubsetBuilds bool // builds may name a single label instead of //...
 	Faults       bool // "fault-wipe-cas" steps
+	Kills        bool // "build-kill" steps: kill -9 the whole process group during a build
+	CasFaults    bool // "build-casfault" steps: the blob store is unwritable for the duration of one build
+	BigOutputs   bool // first file outputs padded to 0.2-3 MiB, shared constant blobs
 	Workers      []int
 }
 
@@ -129,6 +132,12 @@ func GenWS(t *rapid.T, p Profile) WS {
 		if rapid.IntRange(0, 5).Draw(t, "fp") == 0 {
 			tg.Fingerprint = map[string]string{"v": "1"}
 		}
+		if p.BigOutputs {
+			if len(tg.OutFiles) > 0 {
+				tg.PadKB = rapid.SampledFrom([]int{0, 200, 1024, 3072}).Draw(t, "padkb")
+			}
+			tg.Shared = rapid.IntRange(0, 1).Draw(t, "shared") == 0
+		}
 		w.Targets = append(w.Targets, tg)
 	}
 	return w
@@ -149,11 +158,18 @@ func GenHistory(t *rapid.T, p Profile) History {
 	if p.Faults {
 		kinds = append(kinds, "fault-wipe-cas")
 	}
+	if p.Kills {
+		kinds = append(kinds, "build-kill", "build-kill", "build-kill")
+	}
+	if p.CasFaults {
+		kinds = append(kinds, "build-casfault", "build-casfault")
+	}
 	for i := 0; i < n; i++ {
 		k := rapid.SampledFrom(kinds).Draw(t, "kind")
 		s := Step{Kind: k, T: rapid.IntRange(0, 7).Draw(t, "t"), F: rapid.IntRange(0, 7).Draw(t, "f"), V: rapid.IntRange(0, 7).Draw(t, "v")}
-		if k == "build" {
+		if k == "build" || k == "build-kill" || k == "build-casfault" {
 			s.Build = genBuild(t, p, h.WS)
+			s.V = rapid.IntRange(0, 1500).Draw(t, "kill-after-ms")
 		}
 		h.Steps = append(h.Steps, s)
 		if k == "toggle-file" || (k == "edit-content" && rapid.IntRange(0, 3).Draw(t, "revert") == 0) {
